@@ -432,7 +432,7 @@ func c12Rekey(sameKey bool) *vlib.Result {
 func C12Plan() *vlib.Plan {
 	p := &vlib.Plan{
 		Property: "C12", Level: "model_checking",
-		Rule:   "E-BFS over send histories: all sequences of length <= D over 11 operations (A/B sends 0/1/17/5000 bytes, A/B sends a secret, toggle crypto mode) x 7 cleartext-prefix shapes (none / A / B / both send a message; A / B / both send only zero-length frames), each replayed on two fresh real streams; state = (prefix shape, protected frames sent per direction, crypto mode). Every protected frame is opened by the independent reference decryptor (nonce = base IV word0 + counter, AAD = header / digests||header on the first frame), IVs compared across directions and all sessions of the run, reference-built frames fed to the real receiver; counter edge through imported state; a reference sender whose base IV leading word is 0 / 1 / 2^31-1 / 2^31 / 2^32-16 / 2^32-2 / 2^32-1 sends 24 frames to the real receiver (the nonce word wraps, the counter does not); three successive sessions on one Stream (re-keyed with the same key / another key): fresh base IV each time, no (key, nonce) pair twice; send histories over a transport whose 2nd..4th write delivers only 0 / 1 / 5 / 6 / 21 / 40 / all-but-one bytes and fails, the application sending on: the frame after the torn one is never sealed under the torn frame's nonce. Non-trivial = history emitted >= 1 protected frame.",
+		Rule:   "E-BFS over send histories: all sequences of length <= D over 11 operations (A/B sends 0/1/17/5000 bytes, A/B sends a secret, toggle crypto mode) x 7 cleartext-prefix shapes (none / A / B / both send a message; A / B / both send only zero-length frames), each replayed on two fresh real streams; state = (prefix shape, protected frames sent per direction, crypto mode). Every protected frame is opened by the independent reference decryptor (nonce = base IV word0 + counter, AAD = header / digests||header on the first frame), IVs compared across directions and all sessions of the run, reference-built frames fed to the real receiver; counter edge through imported state; a reference sender whose base IV leading word is 0 / 1 / 2^31-1 / 2^31 / 2^32-16 / 2^32-2 / 2^32-1 sends 24 frames to the real receiver (the nonce word wraps, the counter does not); three successive sessions on one Stream (re-keyed with the same key / another key): fresh base IV each time, no (key, nonce) pair twice; send histories over a transport whose 2nd..4th write delivers only 0 / 1 / 5 / 6 / 21 / 40 / all-but-one bytes and fails, the application sending on: the frame after the torn one is never sealed under the torn frame's nonce; raw sends of 1 MiB-40 .. 1 MiB+1 bytes (some refused as over the frame limit) first / in the middle of a sequence: what IS emitted opens as one gap-free sequence. Non-trivial = history emitted >= 1 protected frame.",
 		Assume: []string{"reference decryptor written from the property text (refcodec), uses Go's AES-GCM primitive", "IV randomness is judged only by distinctness over all sessions of the run"},
 	}
 	p.Gen = func(tier string, yield func(vlib.Case)) {
